@@ -11,6 +11,7 @@
 #include <yaclib/async/when_all.hpp>
 #include <yaclib/async/when_any.hpp>
 
+#include <deque>
 #include <tuple>
 #include <variant>
 #include <vector>
@@ -52,6 +53,22 @@ struct Other {
   }
 };
 
+struct Elem {
+  int state = -9;
+  int code = 0;
+  bool fresh = true;
+};
+
+// Another consumer of a shared input, registered on the same SharedFuture before / after the combinator is built.  The
+// combinator must not disturb it: it runs exactly once, with its own input's result, and releases its functor.
+struct CoSub {
+  int kind = 0;  // 0 SubscribeInline, 1 ThenInline (returned future dropped), 2 ThenInline (returned future kept)
+  bool pre = true;
+  int calls = 0;
+  Elem got;
+  yaclib::Future<void, MyError> kept;
+};
+
 template <typename V>
 struct Chan {
   yaclib::Future<V, MyError> uf;
@@ -59,6 +76,22 @@ struct Chan {
   yaclib::SharedFuture<V, MyError> sf;
   yaclib::SharedPromise<V, MyError> sp;
   bool shared = false;
+  std::deque<CoSub> subs;
+  yaclib::SharedFuture<V, MyError> sf_keep;  // second handle for the subscribers registered after the combinator
+
+  void Plan(Ctx& ctx) {
+    if (!shared || ctx.rng.Coin()) {
+      return;
+    }
+    int npre = static_cast<int>(ctx.rng.Below(3)), npost = static_cast<int>(ctx.rng.Below(2));
+    for (int i = 0; i < npre + npost; ++i) {
+      subs.emplace_back();
+      subs.back().kind = static_cast<int>(ctx.rng.Below(3));
+      subs.back().pre = i < npre;
+    }
+  }
+
+  void Attach(bool pre);
 
   void Make(bool sh) {
     shared = sh;
@@ -95,12 +128,6 @@ struct Chan {
     }
     s.set_ret = Stamp();
   }
-};
-
-struct Elem {
-  int state = -9;
-  int code = 0;
-  bool fresh = true;
 };
 
 inline int ExcCode(const std::exception_ptr& e) {
@@ -146,6 +173,42 @@ Elem DigestElem(const std::variant<Ts...>& v) {
       return DigestElem(x);
     },
     v);
+}
+
+template <typename V>
+void Chan<V>::Attach(bool pre) {
+  if (!shared) {
+    return;
+  }
+  if (pre) {
+    for (auto& c : subs) {
+      if (!c.pre) {
+        sf_keep = sf;
+        break;
+      }
+    }
+  }
+  const auto& h = pre ? sf : sf_keep;
+  for (auto& c : subs) {
+    if (c.pre != pre) {
+      continue;
+    }
+    auto cb = [pc = &c, guard = Tracked{31}](const Result<V, MyError>& r) {
+      pc->got = DigestElem(r);
+      pc->got.fresh = pc->got.fresh && guard.Fresh();
+      ++pc->calls;
+    };
+    if (c.kind == 0) {
+      h.SubscribeInline(std::move(cb));
+    } else if (c.kind == 1) {
+      auto dropped = h.ThenInline(std::move(cb));
+    } else {
+      c.kept = h.ThenInline(std::move(cb));
+    }
+  }
+  if (!pre) {
+    sf_keep = {};
+  }
 }
 
 struct OutObs {
@@ -256,8 +319,14 @@ void RunScenario(Ctx& ctx, std::vector<InSpec>& in, std::vector<Chan<V0>>& ch, T
   }
   ts.emplace_back([&] {
     Jitter(setup_jit);
+    for (auto& c : ch) {
+      c.Attach(true);
+    }
     tm.when_call = Stamp();
     auto out = build();
+    for (auto& c : ch) {
+      c.Attach(false);
+    }
     if (!out.Valid()) {
       tm.valid = false;
       tm.when_ret = Stamp();
@@ -287,6 +356,33 @@ void RunScenario(Ctx& ctx, std::vector<InSpec>& in, std::vector<Chan<V0>>& ch, T
   }
   ctx.SetNontrivial(overlapped || in.size() >= 2);
   ctx.Class(overlapped ? "set-overlaps-registration" : "no-overlap");
+  // the other consumers of the shared inputs (C06: every consumer registered on a shared state observes its result
+  // exactly once; C03: their functors are released exactly once)
+  int nsubs = 0;
+  for (std::size_t i = 0; i < in.size(); ++i) {
+    int k = 0;
+    for (auto& c : ch[i].subs) {
+      ++nsubs;
+      int want_state = in[i].kind == kVal ? 0 : in[i].kind == kExc ? 1 : 2;
+      ctx.Check(c.calls == 1, "co-subscriber-exactly-once", "C06,C03",
+                "consumer %d (%s, registered %s the combinator) of shared input %zu ran %d times", k,
+                c.kind == 0 ? "SubscribeInline" : "ThenInline", c.pre ? "before" : "after", i, c.calls);
+      if (c.calls == 1) {
+        ctx.Check(c.got.state == want_state && c.got.code == in[i].code && c.got.fresh, "co-subscriber-value", "C06",
+                  "consumer %d of shared input %zu saw state=%d code=%d fresh=%d, the input was state=%d code=%d", k, i,
+                  c.got.state, c.got.code, (int)c.got.fresh, want_state, in[i].code);
+      }
+      if (c.kind == 2) {
+        ctx.Check(c.kept.Valid() && c.kept.Ready(), "co-subscriber-future-ready", "C06",
+                  "the future returned by ThenInline on shared input %zu is not ready after the input was set", i);
+        c.kept = {};
+      }
+      ++k;
+    }
+  }
+  if (nsubs != 0) {
+    ctx.Class("shared-input-has-other-consumers");
+  }
 }
 
 void CheckCommon(Ctx& ctx, const OutObs& obs, const std::vector<InSpec>& in, const char* props) {
@@ -334,6 +430,7 @@ void AllCase(Ctx& ctx, int form) {
   std::vector<Chan<Other>> ch2(static_cast<std::size_t>(n));  // tuple form: odd indices use a second value type
   for (int i = 0; i < n; ++i) {
     ch[static_cast<std::size_t>(i)].Make(in[static_cast<std::size_t>(i)].shared);
+    ch[static_cast<std::size_t>(i)].Plan(ctx);
   }
   Timing tm;
   tm.drop_output = ctx.rng.Below(6) == 0;
@@ -616,7 +713,7 @@ void AllTupleCase(Ctx& ctx) {
 template <FailPolicy P>
 void JoinCase(Ctx& ctx, int form) {
   int n = static_cast<int>(ctx.rng.In(1, 4));
-  int shared_mode = form == 1 ? 2 : 0;
+  int shared_mode = form == 1 ? 2 : form == 2 ? 1 : 0;
   if (form == 1 && n < 2) {
     n = 2;
   }
@@ -626,6 +723,7 @@ void JoinCase(Ctx& ctx, int form) {
   std::vector<Chan<Tracked>> ch(static_cast<std::size_t>(n));
   for (int i = 0; i < n; ++i) {
     ch[static_cast<std::size_t>(i)].Make(in[static_cast<std::size_t>(i)].shared);
+    ch[static_cast<std::size_t>(i)].Plan(ctx);
   }
   Timing tm;
   OutObs obs;
@@ -633,7 +731,7 @@ void JoinCase(Ctx& ctx, int form) {
   for (auto& s : in) {
     nfail += s.kind != kVal;
   }
-  ctx.Note("Join<%s> form=%s n=%d fails=%d ", PolicyName(P), form == 0 ? "dynamic" : "static-mixed", n, nfail);
+  ctx.Note("Join<%s> form=%s n=%d fails=%d ", PolicyName(P), form == 0 ? "dynamic" : form == 2 ? "dynamic-shared" : "static-mixed", n, nfail);
   ctx.Class(nfail == 0 ? "all-succeed" : "some-fail");
   auto U = [&](int i) -> yaclib::Future<Tracked, MyError>&& {
     return std::move(ch[static_cast<std::size_t>(i)].uf);
@@ -648,6 +746,14 @@ void JoinCase(Ctx& ctx, int form) {
         v.push_back(std::move(c.uf));
       }
       return yaclib::Join<P>(v.begin(), v.size());
+    });
+  } else if (form == 2) {
+    RunScenario(ctx, in, ch, tm, obs, setup_jit, [&] {
+      std::vector<yaclib::SharedFuture<Tracked, MyError>> v;
+      for (auto& c : ch) {
+        v.push_back(std::move(c.sf));
+      }
+      return yaclib::Join<P>(v.begin(), v.end());
     });
   } else {
     RunScenario(ctx, in, ch, tm, obs, setup_jit, [&] {
@@ -730,6 +836,7 @@ void AnyCase(Ctx& ctx, int form) {
   std::vector<Chan<Tracked>> ch(static_cast<std::size_t>(n));
   for (int i = 0; i < n; ++i) {
     ch[static_cast<std::size_t>(i)].Make(in[static_cast<std::size_t>(i)].shared);
+    ch[static_cast<std::size_t>(i)].Plan(ctx);
   }
   Timing tm;
   tm.drop_output = ctx.rng.Below(6) == 0;
@@ -924,8 +1031,11 @@ void AnyCase(Ctx& ctx, int form) {
   VF_CELL(join_dyn_##POL, "join/" pname "/dynamic", "C09,C03", w / 2) {                                               \
     JoinCase<FailPolicy::POL>(ctx, 0);                                                                                 \
   }                                                                                                                    \
-  VF_CELL(join_sta_##POL, "join/" pname "/static-mixed", "C09,C03", w / 2) {                                          \
+  VF_CELL(join_sta_##POL, "join/" pname "/static-mixed", "C09,C03,C06", w / 2) {                                      \
     JoinCase<FailPolicy::POL>(ctx, 1);                                                                                 \
+  }                                                                                                                    \
+  VF_CELL(join_dyns_##POL, "join/" pname "/dynamic-shared", "C09,C03,C06", w / 2) {                                    \
+    JoinCase<FailPolicy::POL>(ctx, 2);                                                                                 \
   }
 
 ALL_CELLS(None, "None", 8)
